@@ -1,5 +1,5 @@
 """C01 - undirected incidence integrity under every edit history."""
-import os
+import os, random
 from .. import common as C, histcheck as HC, hgsim
 from . import base
 
@@ -69,6 +69,28 @@ def run(v, sim=hgsim, prop=PROP, coq_import=COQ_IMPORT, proj=PROJ, oracle_histor
                               "replay_cmd": f"./check {prop} --replay <this file>"}))
     mism, errors = HC.eval_histories(prop, sim, recs, coq_import, proj)
     reports = []
+    # the same alphabet with the explicit integer edge ids handed over as numpy integers / whole floats: as dict keys they are the
+    # ints the model's LInt stands for (equal, equal hash), so model and oracle must see the very same histories
+    recs_p = []
+    if getattr(sim, "INTLIKE_OK", False):
+        hgsim.PRESENT = random.Random(C.seed() * 31 + 5)
+        try:
+            recs_p = HC.gen_histories(sim, max(120, p["n_cases"] // 6), p["max_len"], C.seed() + 11)
+            mism_p, errors_p = HC.eval_histories(prop, sim, recs_p, coq_import, proj)
+        finally:
+            hgsim.PRESENT = None
+        errors += errors_p
+        for r in recs_p:
+            f = oracle_history(r)
+            if f:
+                i, d = f
+                failures.append((f"{prop}:{klass}.{r['ops'][i][0]}:intlike:{r['excs'][i] or 'returns'}",
+                                 {"what": d + " (explicit integer ids presented as numpy integers / whole floats)",
+                                  "history": HC.jsonable(r["ops"][:i + 1]), "step": i, "presentation": "intlike"}))
+        for ci, si in mism_p[:3]:
+            reports.append({"correspondence": f"{coq_import}.mismatches {proj} (explicit integer ids presented as numpy integers / whole floats)",
+                            "history": HC.jsonable(recs_p[ci]["ops"][:si + 1]), "step": si, "presentation": "intlike",
+                            "implementation_last": HC.jsonable(recs_p[ci]["obs"][min(si, len(recs_p[ci]["obs"]) - 1)])})
     for ci, si in mism[:3]:
         ops = recs[ci]["ops"][:si + 1]
         salt = recs[ci].get("iter_salt")
@@ -96,6 +118,7 @@ def run(v, sim=hgsim, prop=PROP, coq_import=COQ_IMPORT, proj=PROJ, oracle_histor
         "samples": [HC.jsonable(r["ops"][:6]) for r in recs[:3]],
         "oracle_evaluations": sum(len(r["obs"]) for r in recs),
         "histories_with_members_presented_as_tuples_or_one_shot_iterators": sum(1 for r in recs if r.get("iter_salt")),
+        "histories_with_integer_ids_presented_as_numpy_integers_or_whole_floats": len(recs_p),
         "exhaustive": False,
         **st,
     })
